@@ -699,11 +699,25 @@ func (w *World) rulesBuf(p *Pkg, add func(ok bool, rule, inst string, pos token.
 		case *ast.AssignStmt:
 			// b := make / b = append(b, …)
 		case *ast.CallExpr:
-			if fid, ok := x.Fun.(*ast.Ident); !ok || fid.Name != "append" {
-				if !(len(stack) >= 3 && stack[len(stack)-3] == ast.Node(rs)) && !withinNode(rs, id) {
-					badUse = "the buffer is passed by value to " + types.ExprString(x.Fun)
+			if fid, ok := x.Fun.(*ast.Ident); ok {
+				if _, isB := info.Uses[fid].(*types.Builtin); isB && (fid.Name == "append" || fid.Name == "len" || fid.Name == "cap") {
+					break
 				}
 			}
+			if withinNode(rs, id) {
+				break
+			}
+			// handed to a package function that only appends to it
+			argIdx := -1
+			for i, a := range x.Args {
+				if a == ast.Expr(id) {
+					argIdx = i
+				}
+			}
+			if callee := calleeOf(info, x); callee != nil && argIdx >= 0 && p.bufferClean(callee, argIdx, map[*types.Func]bool{}) {
+				break
+			}
+			badUse = "the buffer is passed by value to " + types.ExprString(x.Fun) + ", which does more with it than append to it and return it"
 		case *ast.UnaryExpr:
 			// &b: argument 0 of an emit helper, or inside the return
 			if withinNode(rs, id) {
@@ -712,7 +726,7 @@ func (w *World) rulesBuf(p *Pkg, add func(ok bool, rule, inst string, pos token.
 			gp, ok := stack[len(stack)-3].(*ast.CallExpr)
 			if !ok || len(gp.Args) == 0 || gp.Args[0] != ast.Expr(x) {
 				badUse = "the address of the buffer is taken outside an emit helper call"
-			} else if callee, _ := identObj(info, gp.Fun).(*types.Func); callee == nil || !p.summariseEmitHelper(callee, 0).ok {
+			} else if callee := calleeOf(info, gp); callee == nil || !(p.summariseEmitHelper(callee, 0).ok || p.bufferClean(callee, 0, map[*types.Func]bool{})) {
 				badUse = "the address of the buffer is handed to " + types.ExprString(gp.Fun) + ", which is not a verified append-only emit helper"
 			}
 		default:
@@ -776,6 +790,133 @@ func (w *World) rulesBuf(p *Pkg, add func(ok bool, rule, inst string, pos token.
 	}
 	pos := em.Fn.Pos()
 	add(ok, "R14.buf", "Vector.buffer", pos, det)
+}
+
+// bufferClean: parameter idx of fn (a []byte or *[]byte) is used only to
+// append to it, to measure it, to return it, to reassign it from such uses, or
+// to hand it to another function with the same discipline. It is never stored
+// anywhere else, so it cannot outlive the call or be reached from another one.
+func (p *Pkg) bufferClean(fn *types.Func, idx int, seen map[*types.Func]bool) bool {
+	if seen[fn] {
+		return true // assumed for the recursive occurrence; every other use is checked
+	}
+	seen[fn] = true
+	fd := p.FuncObj[fn]
+	if fd == nil || fd.Body == nil || fn.Pkg() != p.P.Types {
+		return false
+	}
+	info := p.Info
+	params := paramObjs(info, fd)
+	if idx >= len(params) || params[idx] == nil {
+		return false
+	}
+	b := params[idx]
+	ok := true
+	var stack []ast.Node
+	ast.Inspect(fd.Body, func(n ast.Node) bool {
+		if n == nil {
+			stack = stack[:len(stack)-1]
+			return false
+		}
+		stack = append(stack, n)
+		id, isId := n.(*ast.Ident)
+		if !isId || identObj(info, id) != b {
+			return true
+		}
+		// climb over *b and (b)
+		i := len(stack) - 2
+		var self ast.Node = id
+		for i >= 0 {
+			switch x := stack[i].(type) {
+			case *ast.ParenExpr:
+				self = x
+				i--
+				continue
+			case *ast.StarExpr:
+				self = x
+				i--
+				continue
+			}
+			break
+		}
+		if i < 0 {
+			ok = false
+			return true
+		}
+		switch x := stack[i].(type) {
+		case *ast.AssignStmt:
+			// on the left: b = … / *b = … ; on the right only as `x = b`?? no: that aliases it
+			for _, r := range x.Rhs {
+				if r == self {
+					ok = false
+				}
+			}
+			for j, l := range x.Lhs {
+				if l != self {
+					continue
+				}
+				// what is assigned must come from append / a clean helper on the buffer
+				if len(x.Lhs) != len(x.Rhs) {
+					ok = false
+					continue
+				}
+				if c, isC := x.Rhs[j].(*ast.CallExpr); !isC || !p.bufferProducer(c, seen) {
+					ok = false
+				}
+			}
+		case *ast.CallExpr:
+			if fid, isI := x.Fun.(*ast.Ident); isI {
+				if _, isB := info.Uses[fid].(*types.Builtin); isB {
+					switch fid.Name {
+					case "append":
+						// only as the destination; appending the buffer to something else copies its bytes
+						return true
+					case "len", "cap":
+						return true
+					}
+					ok = false
+					return true
+				}
+			}
+			argIdx := -1
+			for k, a := range x.Args {
+				if a == self {
+					argIdx = k
+				}
+			}
+			if callee := calleeOf(info, x); callee == nil || argIdx < 0 || !p.bufferClean(callee, argIdx, seen) {
+				ok = false
+			}
+		case *ast.ReturnStmt:
+			// handing it back to the caller
+		case *ast.UnaryExpr:
+			ok = false // &b
+		default:
+			ok = false
+		}
+		return true
+	})
+	return ok
+}
+
+// bufferProducer: the call yields the buffer it was given (append, or a clean helper)
+func (p *Pkg) bufferProducer(c *ast.CallExpr, seen map[*types.Func]bool) bool {
+	info := p.Info
+	if fid, ok := c.Fun.(*ast.Ident); ok {
+		if _, isB := info.Uses[fid].(*types.Builtin); isB {
+			return fid.Name == "append"
+		}
+	}
+	callee := calleeOf(info, c)
+	if callee == nil || callee.Pkg() != p.P.Types {
+		return false
+	}
+	for i, a := range c.Args {
+		if isByteSlice(info.TypeOf(a)) {
+			return p.bufferClean(callee, i, seen)
+		}
+	}
+	return false
 }
 
 func withinNode(outer ast.Node, n ast.Node) bool {
